@@ -87,6 +87,7 @@ def run(rep, tier, seed, pa):
             continue
         nunits = sum(len(u) for u in units)
         results = []
+        maps = {}
 
         def tr(name, thunk, want):
             try:
@@ -99,6 +100,7 @@ def run(rep, tier, seed, pa):
         # 1. annotators renamed by a bijection that reverses the sort order
         names = list(reversed(["zeta", "mu", "kappa", "beta", "alpha"][:n]))
         rng.shuffle(names)
+        maps["rename-annotators"] = list(names)
         tr("rename-annotators", lambda: disorder(pa, units, None, names=names, mk=mk), base)
         # 2. translation
         c = rng.choice([-512, -3, 7, 1000, 4096]) + rng.randrange(0, 64) / 64.0
@@ -110,10 +112,12 @@ def run(rep, tier, seed, pa):
         if kind == "abs":
             ren = dict(zip(labels, rng.sample(["zz", "B", "k9", "Aa", "m"], 3)))
             ren[None] = None
+            maps["rename-categories-arbitrary"] = [[k, v] for k, v in ren.items()]
             tr("rename-categories-arbitrary", lambda: disorder(pa, transform_units(units, lambda s, e, l: (s, e, ren[l])), None, mk=mk), base)
         elif kind in ("pre", "ord"):
             ren = dict(zip(sorted(labels), ["b1", "b2", "c0"]))
             mk2 = mk_dissim(kind, alpha, beta, de, [ren[l] for l in labels])
+            maps["rename-categories-order-preserving"] = [[k, v] for k, v in ren.items()]
             tr("rename-categories-order-preserving", lambda: disorder(pa, transform_units(units, lambda s, e, l: (s, e, ren[l])), None, mk=mk2), base)
         # 5. delta_empty scaling in all components
         cde = rng.choice([0.5, 2.0, 4.0])
@@ -126,7 +130,7 @@ def run(rep, tier, seed, pa):
             if not close(got, want, TAU2):
                 rep.violation("invariance:" + name.split("*")[0].split("+")[0].rstrip("-0123456789."),
                               {"units": units, "kind": kind, "alpha": alpha, "beta": beta, "de": de, "transformation": name,
-                               "disorder": got, "expected": want},
+                               "map": maps.get(name), "disorder": got, "expected": want},
                               "disorder %r after %s, expected %r" % (got, name, want))
         # gamma under delta_empty scaling, same seed
         if ci % 4 == 0 and all(len(u) > 0 for u in units):
@@ -170,8 +174,16 @@ def replay(rep, data, pa):
         c = float(name.split("*")[1])
         got = disorder(pa, units, None, mk=mk_dissim(kind, alpha, beta, de * c, labels))
         ok = close(got, base * c, TAU2)
+    elif name.startswith("rename-categories"):
+        ren = {(k if k is not None else None): v for k, v in (data.get("map") or [])}
+        if not ren:
+            print("   the record carries no category map")
+            return False
+        mk2 = mk if name.endswith("arbitrary") else mk_dissim(kind, alpha, beta, de, [ren[l] for l in labels])
+        got = disorder(pa, transform_units(units, lambda s, e, l: (s, e, ren[l])), None, mk=mk2)
+        ok = close(got, base, TAU2)
     else:
-        names = list(reversed(["zeta", "mu", "kappa", "beta", "alpha"][:len(units)]))
+        names = data.get("map") or list(reversed(["zeta", "mu", "kappa", "beta", "alpha"][:len(units)]))
         got = disorder(pa, units, None, names=names, mk=mk)
         ok = close(got, base, TAU2)
     print("   now: base %r transformed %r" % (base, got))
